@@ -146,3 +146,14 @@ Proof. intros A H care b. apply gen_care2bounds. Qed.
 Theorem C20_source_on2bounds : forall {A} `{Num A} l on (b : list (param A)), Nat.even (List.length on) = true ->
   on2bounds_gen l on b = on2bounds l on b.
 Proof. intros A H l on b. apply gen_on2bounds. Qed.
+
+(* ---- the per-kind loaders (load_load_device, load_fixed_load_device, load_supply_device, load_storage_device, load_cbounds) and
+        load_data, regenerated from builder_loader.py on every run: the id (`title`, else the type name), the bounds table, `-1 * table` and the
+        swapped columns for a supply device, the `(low != high).all()` refusal of a fixed load, the optional cumulative bounds, the storage
+        parameter map / dictionary comprehension and the two rate-clip keys, the dispatch by type name, the left-to-right loop of load_data
+        (first failure wins) ARE the model.  Cost curves are not part of the loader model (their statements are skipped, by name);
+        load_thermal_load_device is not translated (open finding).  Run dictionaries with keys distinct after int().  No axioms. ---- *)
+Theorem C20_source_load_device : forall {A} `{Num A} basis (d : bdev A), runs_ok d -> load_device_gen basis d = load_device basis d.
+Proof. intros A H basis d. apply gen_load_device. Qed.
+Theorem C20_source_load_data : forall {A} `{Num A} basis (ds : list (bdev A)), Forall runs_ok ds -> load_data_gen basis ds = load_data basis ds.
+Proof. intros A H basis ds. apply gen_load_data. Qed.
